@@ -45,6 +45,13 @@ theorem C06_pages_disjoint {α : Type} (l : List α) (off a b : Nat) (hn : l.Nod
   intro x hx hq
   exact (List.nodup_append.mp h).2.2 x hx x hq rfl
 
+/-- `limit = 0` asks for everything from `offset` on -/
+theorem C06_page_all {α : Type} (l : List α) (off : Nat) (hoff : off < 2 ^ 63) (hlen : l.length < 2 ^ 63) :
+    pageRepaired l off ((0 : Nat) : Int) = .ok (l.drop off) := by
+  rw [C06_page_repaired l off 0 hoff (by decide) hlen]
+  simp only [if_true]
+  rw [List.take_of_length_le (by simp)]
+
 /-- non-vacuity: the hypotheses are met by two pages of a five-row answer, and the pages are the expected ones -/
 example : ∃ p q, pageRepaired [1, 2, 3, 4, 5] ((1 : Nat) : Int) ((2 : Nat) : Int) = .ok p ∧
     pageRepaired [1, 2, 3, 4, 5] ((1 + 2 : Nat) : Int) ((2 : Nat) : Int) = .ok q ∧
